@@ -331,6 +331,62 @@ b('iterator_next_match', 'Iterator::next uses match instead of ok()',
   [(LIB, 'impl<T> Iterator for Receiver<T>', 'self.recv().ok()', 'match self.recv() {\n            Ok(v) => Some(v),\n            Err(_) => None,\n        }')])
 b('recv_timeout_deadline_plus', 'recv_timeout computes the deadline with + instead of checked_add().unwrap()',
   [(LIB, 'pub fn recv_timeout', 'let deadline = Instant::now().checked_add(duration).unwrap();', 'let deadline = Instant::now() + duration;')])
+b('cancel_position_remove', 'cancel_send_signal searches with iter().position(..) and removes that index',
+  [(INT, 'fn cancel_send_signal', """            for (i, send) in self.wait_list.iter().enumerate() {
+                if send.eq(sig) {
+                    self.wait_list.remove(i);
+                    return true;
+                }
+            }""", """            if let Some(i) = self.wait_list.iter().position(|s| s.eq(sig)) {
+                self.wait_list.remove(i);
+                return true;
+            }""")])
+b('terminate_pop_loop', 'terminate_signals pops until the list is empty instead of iterating and clearing',
+  [(INT, 'fn terminate_signals', """        for t in self.wait_list.iter() {
+            // Safety: it's safe to terminate owned signal once
+            unsafe { t.terminate() }
+        }
+        self.wait_list.clear();""", """        while let Some(t) = self.wait_list.pop_front() {
+            // Safety: it's safe to terminate owned signal once
+            unsafe { t.terminate() }
+        }""")])
+b('exists_any', 'recv_signal_exists uses iter().any(..)',
+  [(INT, 'fn recv_signal_exists', """            for signal in self.wait_list.iter() {
+                if signal.eq(sig) {
+                    return true;
+                }
+            }""", """            if self.wait_list.iter().any(|s| s.eq(sig)) {
+                return true;
+            }""")])
+m('cancel_position_swap_remove', 'C02', ['H4', 'Q1'], 'position(..) + swap_remove_back',
+  [(INT, 'fn cancel_recv_signal', """            for (i, recv) in self.wait_list.iter().enumerate() {
+                if recv.eq(sig) {
+                    self.wait_list.remove(i);
+                    return true;
+                }
+            }""", """            if let Some(i) = self.wait_list.iter().position(|s| s.eq(sig)) {
+                self.wait_list.swap_remove_back(i);
+                return true;
+            }""")])
+m('cancel_rposition', 'C07', ['H4'], 'rev().position(..) gives an index from the back but remove(i) counts from the front',
+  [(INT, 'fn cancel_send_signal', """            for (i, send) in self.wait_list.iter().enumerate() {
+                if send.eq(sig) {
+                    self.wait_list.remove(i);
+                    return true;
+                }
+            }""", """            if let Some(i) = self.wait_list.iter().rev().position(|s| s.eq(sig)) {
+                self.wait_list.remove(i);
+                return true;
+            }""")])
+m('terminate_pop_loop_single', 'C06', ['H6'], 'terminate_signals terminates only the first waiter',
+  [(INT, 'fn terminate_signals', """        for t in self.wait_list.iter() {
+            // Safety: it's safe to terminate owned signal once
+            unsafe { t.terminate() }
+        }
+        self.wait_list.clear();""", """        if let Some(t) = self.wait_list.pop_front() {
+            // Safety: it's safe to terminate owned signal once
+            unsafe { t.terminate() }
+        }""")])
 
 
 def apply(text, marker, old, new, fname):
